@@ -100,7 +100,8 @@ fn gfind(a: &[&str]) -> Option<String> {
     });
     let r = r?;
     let rep = verif::take();
-    let (loads, bad) = fmt_loads(&rep.loads, 2);
+    let (loads, _) = fmt_loads(&rep.loads, 2);
+    let bad = rep.bad_loads;
     let val = r.map(|addr| addr - p.ptr() as usize);
     let window = if soff <= eoff { &hay[soff..eoff] } else { &hay[0..0] };
     let is = |b: &u8| needles.contains(b);
@@ -144,7 +145,8 @@ fn gcount(a: &[&str]) -> Option<String> {
     });
     let r = r?;
     let rep = verif::take();
-    let (loads, bad) = fmt_loads(&rep.loads, 2);
+    let (loads, _) = fmt_loads(&rep.loads, 2);
+    let bad = rep.bad_loads;
     let window = if soff <= eoff { &hay[soff..eoff] } else { &hay[0..0] };
     let oracle = window.iter().filter(|&&b| b == n1).count();
     Some(format!(
@@ -178,7 +180,8 @@ pub fn naive_rfind(hay: &[u8], needle: &[u8]) -> Option<usize> {
 /// Common tail: `ok <val> steps=.. loads=.. oracle=.. badloads=.. allocs=..`
 fn finish(val: String, oracle: String, allocs: u64) -> String {
     let rep = verif::take();
-    let (loads, bad) = fmt_loads(&rep.loads, 1);
+    let (loads, _) = fmt_loads(&rep.loads, 1);
+    let bad = rep.bad_loads;
     let strat = if rep.strategies.is_empty() { "-".to_string() } else { rep.strategies.join(",") };
     format!(
         "ok {} steps={} loads={} oracle={} badloads={} allocs={} strat={}",
@@ -574,6 +577,7 @@ fn twfind(a: &[&str]) -> Option<String> {
     crate::vreset();
     verif::register_region(ph.ptr(), hay.len());
     verif::register_region(pn.ptr(), needle.len());
+    verif::set_tick_limit(crate::tick_limit(hay.len(), needle.len()));
     let (r, allocs, oracle) = match a[0] {
         "fwd" => {
             let (r, al) = alloc_probe::measure(|| tw::Finder::new(pn.slice()).find(ph.slice(), pn.slice()));
